@@ -298,6 +298,21 @@ static void c07_check(cbor_item_t* it) {
       VH_COUNT("sentinel_passes", 1);
     }
   }
+  /* roomy buffers: the answer and the bytes do not depend on how much room is left over */
+  {
+    static const size_t extra[] = {7, 8, 15, 16, 17, 64, 4096};
+    for (size_t xi = 0; xi < sizeof extra / sizeof extra[0]; xi++) {
+      size_t n = size + extra[xi];
+      uint8_t* big = malloc(n + 64);
+      memset(big, 0x5e, n + 64);
+      size_t r = cbor_serialize(it, big, n);
+      if (r != size) vh_violation("wrong-return", "item of serialized size %zu, buffer of %zu bytes: cbor_serialize returned %zu", size, n, r);
+      else if (memcmp(big, base, size)) vh_violation("bytes-differ", "buffer of %zu bytes: output differs from the output for the exact size", n);
+      for (size_t i = n; i < n + 64; i++) if (big[i] != 0x5e) { vh_violation("write-beyond-buffer", "buffer_size=%zu but byte at index %zu was modified (item size %zu)", n, i, size); break; }
+      free(big);
+      VH_COUNT("serialize_calls", 1);
+    }
+  }
   /* buffer sizes beyond 2^32: the output region is a >8 GiB mapping of which only the first pages are touched */
   if (size <= 200 && (g_huge_budget++ % 8) == 0) {
     size_t rl;
@@ -336,10 +351,17 @@ static void c07_check(cbor_item_t* it) {
   free(base);
 }
 
-static void c07_enc_case(int e, uint64_t v, size_t n) {
+/* buffer sizes: every size around the longest head, then sizes at which an implementation might switch to a wider
+ * store or a different code path (word, cache line, page) — the tail of the buffer beyond the returned length is the
+ * caller's: it may already hold the payload the head is being written in front of */
+static const size_t enc_sizes[] = {0, 1, 2, 3, 4, 5, 6, 7, 8, 9, 10, 11, 12, 15, 16, 17, 24, 31, 32, 33, 63, 64, 65, 127, 128, 255, 256, 4095, 4096, 65536};
+#define N_ENC_SIZES (sizeof enc_sizes / sizeof enc_sizes[0])
+static void c07_enc_case(int e, uint64_t v, size_t ni) {
   uint8_t desc[11] = {'E', (uint8_t)e};
   for (int i = 0; i < 8; i++) desc[2 + i] = (uint8_t)(v >> (56 - 8 * i));
-  desc[10] = (uint8_t)n;
+  desc[10] = (uint8_t)ni;
+  if (ni >= N_ENC_SIZES) return;
+  size_t n = enc_sizes[ni];
   if (!vh_case(desc, 11)) return;
   uint8_t* blk = malloc(n);
   memset(blk, 0xcd, n);
@@ -350,15 +372,18 @@ static void c07_enc_case(int e, uint64_t v, size_t n) {
   if (r == 0) { for (size_t i = 0; i < n; i++) if (blk[i] != 0xcd) { vh_violation("write-on-failure", "cbor_encode_%s(%llu) returned 0 for a %zu-byte buffer but modified byte %zu", enc_names[e], (unsigned long long)v, n, i); break; } }
   else { for (size_t i = r; i < n; i++) if (blk[i] != 0xcd) { vh_violation("write-beyond-return", "cbor_encode_%s(%llu) returned %zu but modified byte %zu", enc_names[e], (unsigned long long)v, r, i); break; } }
   /* totality in n: once it fits it keeps fitting with the same bytes */
-  uint8_t big[64 + 16];
-  memset(big, 0x5e, sizeof big);
+  size_t bigcap = n + 64 + 16;
+  uint8_t* big = malloc(bigcap);
+  memset(big, 0x5e, bigcap);
   size_t rb = vh_call_encoder(e, v, big, n);
   if (rb != r) vh_violation("nondeterministic", "cbor_encode_%s(%llu, n=%zu) returned %zu then %zu", enc_names[e], (unsigned long long)v, n, r, rb);
-  for (size_t i = n; i < sizeof big; i++) if (big[i] != 0x5e) { vh_violation("write-beyond-buffer", "cbor_encode_%s(%llu) with buffer_size=%zu modified byte %zu", enc_names[e], (unsigned long long)v, n, i); break; }
+  for (size_t i = n; i < bigcap; i++) if (big[i] != 0x5e) { vh_violation("write-beyond-buffer", "cbor_encode_%s(%llu) with buffer_size=%zu modified byte %zu", enc_names[e], (unsigned long long)v, n, i); break; }
   if (r && rb == r && memcmp(big, blk, r)) vh_violation("nondeterministic", "cbor_encode_%s bytes differ between two calls", enc_names[e]);
   size_t rfull = vh_call_encoder(e, v, big, 16);
   if (rfull == 0 || rfull > 9) vh_violation("does-not-fit-16", "cbor_encode_%s(%llu) into 16 bytes returned %zu", enc_names[e], (unsigned long long)v, rfull);
   else if ((n >= rfull) != (r != 0) || (r && r != rfull)) vh_violation("wrong-return", "cbor_encode_%s(%llu): needs %zu bytes, buffer %zu, returned %zu", enc_names[e], (unsigned long long)v, rfull, n, r);
+  if (rfull && rfull <= 9) for (size_t i = rfull; i < bigcap; i++) if (big[i] != 0x5e) { vh_violation("write-beyond-return", "cbor_encode_%s(%llu, n=16) returned %zu but modified byte %zu", enc_names[e], (unsigned long long)v, rfull, i); break; }
+  free(big);
   free(blk);
   vh_nontrivial(vh_hash(desc, 11));
   VH_COUNT("encoder_calls", 3);
@@ -386,7 +411,7 @@ static void c07_encoders(void) {
       else if (vi < (uint64_t)gen_nboundaries) v = gen_boundaries[vi];
       else { uint64_t k = vi - (uint64_t)gen_nboundaries; v = k < 65 ? (k == 64 ? ~0ull : ((uint64_t)1 << k)) : 0x0102030405060708ull; }
       if (bits == 32) v &= 0xffffffffull;
-      for (size_t n = 0; n <= 10; n++) c07_enc_case(e, v, n);
+      for (size_t ni = 0; ni < N_ENC_SIZES; ni++) c07_enc_case(e, v, ni);
     }
   }
 }
@@ -723,7 +748,8 @@ rnode* ser_api_shadow(uint64_t u, uint64_t seed, struct vh_rng* r) {
   rnode* t;
   if (u < nsys) t = gen_systematic(u);
   else {
-    struct gen_cfg cfg = {.max_nodes = 3 + (int)(u % 29), .max_depth = 7, .nonminimal = false, .assigned_simple_only = true};
+    /* C03 is stated for the assigned simple values only; sizes, buffers and copies (C07, C11, C06's api scenarios) are for every item */
+    struct gen_cfg cfg = {.max_nodes = 3 + (int)(u % 29), .max_depth = 7, .nonminimal = false, .assigned_simple_only = (P == 3)};
     t = gen_tree(r, &cfg);
   }
   if (t && u % 2) add_variation(t, r);
@@ -816,7 +842,7 @@ static void ser_run(void) {
   else if (!strcmp(O.stage, "enc") && P == 7) c07_encoders();
   else vh_die("driver ser: unknown stage '%s'", O.stage);
   if (P == 3) vh_set_rule("each case is an item tree (returned by cbor_load for an enumerated/generated input, or assembled by construction calls alongside a shadow tree); its serialization is compared byte for byte with the reference encoder's output for the shadow tree, reloaded, compared, and serialized again; non-trivial = a tree was obtained; distinct by 64-bit hash of the input / generator index");
-  else if (P == 7) vh_set_rule("each tree case runs cbor_serialize for every buffer size 0..size+2 in exactly-sized heap blocks (ASan red zones) plus sentinel-image buffers, and cbor_serialize_alloc; each encoder case is an (encoder, value, n) triple with n = 0..10; non-trivial = a tree was obtained / the encoder was called; distinct by hash");
+  else if (P == 7) vh_set_rule("each tree case runs cbor_serialize for every buffer size 0..size+2 in exactly-sized heap blocks (ASan red zones) plus sentinel-image buffers, and cbor_serialize_alloc; each encoder case is an (encoder, value, n) triple with n = 0..12 and 18 larger sizes up to 65536, the buffer pre-filled with a sentinel and the whole tail beyond the returned length compared afterwards; non-trivial = a tree was obtained / the encoder was called; distinct by hash");
   else vh_set_rule("each case is an item tree that is copied; shape, bytes, refcounts, address-set disjointness and independence under mutation/release in both orders are checked; non-trivial = a tree was obtained and copied; distinct by hash of the input / generator index");
   vh_set_exhaustive(false);
 }
